@@ -161,6 +161,13 @@ func (st *State) callAPI(fn *ssa.Function, a []Value, caller *frame) Value {
 // unsafeBuiltin handles unsafe.{Add,Slice,SliceData,String,StringData}.
 func (st *State) unsafeBuiltin(fn *ssa.Builtin, a []Value) (Value, bool) {
 	switch fn.Name() {
+	case "Sizeof", "Alignof":
+		t := fn.Type().(*types.Signature).Params().At(0).Type()
+		sz := types.SizesFor("gc", "amd64")
+		if fn.Name() == "Sizeof" {
+			return term.BV(64, uint64(sz.Sizeof(t))), true
+		}
+		return term.BV(64, uint64(sz.Alignof(t))), true
 	case "String":
 		p := a[0].(Ptr)
 		n := int(st.asInt(a[1], 0, 1<<24))
